@@ -217,6 +217,29 @@ pub fn gen_c12(thorough: bool, seed: u64) -> Vec<Episode> {
         }
         eps.push(ep(6, ops));
     }
+    // the cubes at the edge of the representation: all 32 variables positive / negative / one literal short, the
+    // full-width minterms of the extreme assignments
+    {
+        let full: usize = 0xffff_ffff;
+        let mut ops = Vec::new();
+        let mut k = 0;
+        for (p, q) in [(full, 0usize), (0, full), (full ^ 1, 0), (full ^ (1 << 31), 0), (0, full ^ (1 << 31)), (full ^ 1, 1), (1 << 31, full ^ (1 << 31)),
+                       (0x5555_5555, 0xaaaa_aaaa), (0xffff_0000, 0x0000_ffff)] {
+            ops.push(json!({"op": "t_mk", "k": "cube", "c": if k % 2 == 0 { "from_mask" } else { "from_vars" }, "d": 0, "p": bits(p), "q": bits(q)}));
+            ops.push(json!({"op": "t_info", "a": 0}));
+            for m in [p, full, 0, p ^ 1] {
+                ops.push(json!({"op": "t_val", "a": 0, "mb": bits(m)}));
+            }
+            ops.push(json!({"op": "t_mk", "k": "cube", "c": "minterm", "d": 1, "n": 32, "mb": bits(p)}));
+            ops.push(json!({"op": "t_info", "a": 1}));
+            ops.push(json!({"op": "t_rel", "f": "eq", "a": 0, "b": 1}));
+            ops.push(json!({"op": "t_rel", "f": "implies", "a": 1, "b": 0}));
+            ops.push(json!({"op": "t_bin", "g": "and", "f": FORMS[k % 4], "a": 0, "b": 1, "d": 2}));
+            ops.push(json!({"op": "t_info", "a": 2}));
+            k += 1;
+        }
+        eps.push(ep(6, ops));
+    }
     eps
 }
 
@@ -927,6 +950,29 @@ pub fn gen_c16(thorough: bool, seed: u64) -> Vec<Episode> {
         for round in 0..(if thorough { 24 } else { 6 }) {
             eps.push(ep(n, confusable_ops(&mut r, n, round)));
         }
+    }
+    // forms of several hundred terms (whatever a Display impl does per batch of terms)
+    for (n, len) in [(8usize, 257usize), (8, 300), (9, 513), (9, 600)] {
+        if !thorough && len > 520 {
+            continue;
+        }
+        let mut seen = std::collections::HashSet::new();
+        let mut cl: Vec<(usize, usize)> = Vec::new();
+        while cl.len() < len {
+            let c = random_cube(&mut r, n, 4);
+            if seen.insert(c) {
+                cl.push(c);
+            }
+        }
+        let el: Vec<Value> = (0..len).map(|k| ecube_json(1 + (k * 7 + k / 3) % (dom(n) - 1), k % 3 == 0)).collect();
+        eps.push(ep(n, vec![
+            sop_mk(0, n, &cl, "sop"),
+            json!({"op": "t_text", "a": 0, "n": n}),
+            sop_mk(1, n, &cl, "esop"),
+            json!({"op": "t_text", "a": 1, "n": n}),
+            json!({"op": "t_mk", "k": "soes", "c": "from_cubes", "d": 2, "n": n, "cubes": el}),
+            json!({"op": "t_text", "a": 2, "n": n}),
+        ]));
     }
     eps
 }
